@@ -6,6 +6,7 @@ From Coq Require Import List NArith ZArith Bool Lia.
 Import ListNotations.
 From JR Require Import Stream Stream_Proofs Locks.
 From JRGen Require Extracted LockTable.
+From JR Require Skeletons.
 Import LockTable.
 
 Theorem c08_source_facts :
@@ -13,7 +14,12 @@ Theorem c08_source_facts :
   (* the sink callback is invoked at exactly three sites, each time under the channel handler's own mutex: a value in
      delivery and the closing of the sink never overlap (regenerated lock table) *)
   sink_callbacks_locked lock_rows = true /\
-  sink_callback_sites lock_rows = ["handleChanMessage"; "handleChanClose"; "closeChans"]%string.
+  sink_callback_sites lock_rows = ["handleChanMessage"; "handleChanClose"; "closeChans"]%string /\
+  (* the pump that closes the caller's channel ends for two reasons only: the context (case 0), or drained after the
+     sink was closed; it has no third way out *)
+  Extracted.outchan_select_cases =
+    ["reflect.SelectRecv reflect.ValueOf(ctx.Done())"; "reflect.SelectRecv reflect.ValueOf(incoming)"; "reflect.SelectSend ch";
+     "case 0"; "case 1"; "case 2"]%string.
 Proof. repeat split; vm_compute; reflexivity. Qed.
 
 (* in the model: the connection-side close of a sink is not enabled while a value is inside the sink callback *)
@@ -68,6 +74,17 @@ Proof.
   - destruct (ctxc s); [auto|discriminate].
 Qed.
 
+(* the functions this property's model is an abstraction of still have the control / locking / shared-state skeleton the
+   model was written against (Skeletons.v, by hand; Extracted.v, regenerated from /repo) *)
+Theorem c08_code_skeletons :
+  JRGen.Extracted.effects_handleChanMessage = JR.Skeletons.handleChanMessage /\
+  JRGen.Extracted.effects_handleChanClose = JR.Skeletons.handleChanClose /\
+  JRGen.Extracted.effects_closeChans = JR.Skeletons.closeChans /\
+  JRGen.Extracted.effects_makeOutChan = JR.Skeletons.makeOutChan /\
+  JRGen.Extracted.effects_handleCtxAsync = JR.Skeletons.handleCtxAsync.
+Proof. repeat split; reflexivity. Qed.
+
+Print Assumptions c08_code_skeletons.
 Print Assumptions c08_source_facts.
 Print Assumptions c08_close_not_during_delivery.
 Print Assumptions c08_prefix_always.
